@@ -10,6 +10,7 @@ import (
 	"math/big"
 	"os"
 	"runtime"
+	"sort"
 	"strconv"
 	"strings"
 	"sync"
@@ -40,18 +41,83 @@ const (
 var seqPrices = [3][2]uint64{{100, 109}, {100, 110}, {100, 150}}
 
 type seqOp struct {
-	Kind  byte // 'L' AddLocal, 'R' AddRemotesSync, 'M' head event mining the account's lowest pending tx, 'P' SetGasPrice
+	// 'L' AddLocal, 'R' AddRemotesSync, 'M' head event mining the account's lowest pending tx, 'P' SetGasPrice,
+	// 'B' head event that sets the account's balance to a boundary value, 'G' head event that sets the block gas
+	// limit to a boundary value (boundary values are derived from the transactions submitted so far, see boundary)
+	Kind  byte
 	Acct  int
 	Nonce uint64
 	Hi    bool
+	K     int // 'B': 0 = c1-1, 1 = c1, 2 = c2-1 (c1 > c2: the two highest distinct costs submitted by the account); 'G': 0 = g1-1, 1 = g1 (highest gas submitted)
+}
+
+// the high-priced variant of every slot also asks for more gas, so that a
+// replacement is costlier than the original in both dimensions (cost and gas)
+var seqGas = [2]uint64{21000, 22000}
+
+func seqCost(o seqOp) uint64 { return seqGas[b2i(o.Hi)] * seqPrices[o.Nonce][b2i(o.Hi)] }
+
+// boundary: the value a 'B' / 'G' operation at position i uses. It depends only
+// on the operations before it (every submitted transaction counts, admitted or
+// not), so it is a static function of the sequence.
+func boundary(seq []seqOp, i int) (uint64, bool) {
+	o := seq[i]
+	var vals []uint64
+	for _, p := range seq[:i] {
+		if p.Kind != 'L' && p.Kind != 'R' {
+			continue
+		}
+		v := seqGas[b2i(p.Hi)]
+		if o.Kind == 'B' {
+			if p.Acct != o.Acct {
+				continue
+			}
+			v = seqCost(p)
+		}
+		dup := false
+		for _, x := range vals {
+			dup = dup || x == v
+		}
+		if !dup {
+			vals = append(vals, v)
+		}
+	}
+	sort.Slice(vals, func(a, b int) bool { return vals[a] > vals[b] })
+	switch {
+	case len(vals) == 0:
+		return 0, false
+	case o.K == 0:
+		return vals[0] - 1, true
+	case o.K == 1:
+		return vals[0], true
+	case len(vals) >= 2:
+		return vals[1] - 1, true
+	}
+	return 0, false
+}
+
+func opStrings(seq []seqOp) []string {
+	out := make([]string, len(seq))
+	for i, o := range seq {
+		out[i] = o.String()
+		if o.Kind == 'B' || o.Kind == 'G' {
+			v, _ := boundary(seq, i)
+			out[i] += fmt.Sprintf("=%d", v)
+		}
+	}
+	return out
 }
 
 func (o seqOp) String() string {
 	switch o.Kind {
 	case 'L', 'R':
-		return fmt.Sprintf("%c(a%d,n%d,p%d)", o.Kind, o.Acct, o.Nonce, seqPrices[o.Nonce][b2i(o.Hi)])
+		return fmt.Sprintf("%c(a%d,n%d,p%d,g%d)", o.Kind, o.Acct, o.Nonce, seqPrices[o.Nonce][b2i(o.Hi)], seqGas[b2i(o.Hi)])
 	case 'M':
 		return fmt.Sprintf("M(a%d)", o.Acct)
+	case 'B':
+		return fmt.Sprintf("B(a%d,%s)", o.Acct, []string{"c1-1", "c1", "c2-1"}[o.K])
+	case 'G':
+		return fmt.Sprintf("G(%s)", []string{"g1-1", "g1"}[o.K])
 	default:
 		if o.Hi {
 			return fmt.Sprintf("P(%d)", seqPriceHi)
@@ -73,13 +139,19 @@ func seqAlphabet() []seqOp {
 		for a := 0; a < 2; a++ {
 			for n := uint64(0); n < 3; n++ {
 				for _, hi := range []bool{false, true} {
-					al = append(al, seqOp{k, a, n, hi})
+					al = append(al, seqOp{Kind: k, Acct: a, Nonce: n, Hi: hi})
 				}
 			}
 		}
 	}
 	al = append(al, seqOp{Kind: 'M', Acct: 0}, seqOp{Kind: 'M', Acct: 1})
 	al = append(al, seqOp{Kind: 'P', Hi: true}, seqOp{Kind: 'P', Hi: false})
+	for a := 0; a < 2; a++ {
+		for k := 0; k < 3; k++ {
+			al = append(al, seqOp{Kind: 'B', Acct: a, K: k})
+		}
+	}
+	al = append(al, seqOp{Kind: 'G', K: 0}, seqOp{Kind: 'G', K: 1})
 	return al
 }
 
@@ -89,7 +161,23 @@ func seqAlphabet() []seqOp {
 // A SetGasPrice that repeats the current threshold changes nothing at all (the
 // pool starts at the low threshold), so a sequence containing one is equivalent
 // to the shorter sequence without it, which is run anyway as a prefix class.
+//
+// Boundary heads ('B', 'G'): at most one per sequence, not before the third
+// position (two earlier operations are needed for an original and its
+// replacement), and only where the boundary value is defined.
 func canonical(seq []seqOp) bool {
+	nb := 0
+	for i, o := range seq {
+		if o.Kind == 'B' || o.Kind == 'G' {
+			nb++
+			if nb > 1 || i < 2 {
+				return false
+			}
+			if _, ok := boundary(seq, i); !ok {
+				return false
+			}
+		}
+	}
 	hi := false
 	for _, o := range seq {
 		if o.Kind == 'P' {
@@ -179,7 +267,7 @@ func runSequence(sh *seqShared, seq []seqOp, wk *seqWorker) bool {
 		for a := 0; a < 2; a++ {
 			for n := 0; n < 3; n++ {
 				for p := 0; p < 2; p++ {
-					ti := mkTx(txKey{acct: a, nonce: uint64(n), price: seqPrices[n][p], gas: 21000})
+					ti := mkTx(txKey{acct: a, nonce: uint64(n), price: seqPrices[n][p], gas: seqGas[p]})
 					cp := types.NewTx(ti.tx.Inner())
 					cp.Hash()
 					wk.txs[a][n][p] = &txInfo{tx: cp, key: ti.key}
@@ -197,9 +285,8 @@ func runSequence(sh *seqShared, seq []seqOp, wk *seqWorker) bool {
 	seqTx := func(o seqOp) *txInfo { return wk.txs[o.Acct][o.Nonce][b2i(o.Hi)] }
 
 	ops := make([]string, len(seq))
-	for i, o := range seq {
-		ops[i] = o.String()
-	}
+	copy(ops, opStrings(seq))
+	spec := headSpec{seqBaseFee, seqGasLimit}
 	var errs []string
 	permitted := map[common.Hash]bool{}
 	submitted := map[common.Hash]bool{}
@@ -288,7 +375,18 @@ func runSequence(sh *seqShared, seq []seqOp, wk *seqWorker) bool {
 				} else {
 					refClass = "ref:empty-head"
 				}
-				b := r.chain.extend(r.chain.head(), mined, nil, headSpec{seqBaseFee, seqGasLimit})
+				b := r.chain.extend(r.chain.head(), mined, nil, spec)
+				r.chain.announce(b)
+			case 'B':
+				v, _ := boundary(seq, i)
+				refClass = "ref:balance-boundary-head:" + []string{"c1-1", "c1", "c2-1"}[o.K]
+				b := r.chain.extend(r.chain.head(), nil, map[int]*big.Int{o.Acct: new(big.Int).SetUint64(v)}, spec)
+				r.chain.announce(b)
+			case 'G':
+				v, _ := boundary(seq, i)
+				refClass = "ref:gas-limit-boundary-head:" + []string{"g1-1", "g1"}[o.K]
+				spec.GasLimit = v
+				b := r.chain.extend(r.chain.head(), nil, nil, spec)
 				r.chain.announce(b)
 			case 'P':
 				if o.Hi {
@@ -393,8 +491,16 @@ func runSequence(sh *seqShared, seq []seqOp, wk *seqWorker) bool {
 			}
 			if prev != nil {
 				_, ps := checkInvariantsCount(prev)
-				if st.pending+st.queued < ps && o.Kind != 'M' && o.Kind != 'P' {
+				if st.pending+st.queued < ps && (o.Kind == 'L' || o.Kind == 'R') {
 					m.Eval("outcome:eviction-on-add", "")
+				}
+				if o.Kind == 'B' || o.Kind == 'G' {
+					what := map[byte]string{'B': "balance", 'G': "gas-limit"}[o.Kind]
+					if st.pending+st.queued < ps {
+						m.Eval("outcome:dropped-by-"+what+"-head", "")
+					} else if ps > 0 {
+						m.Eval("outcome:kept-at-"+what+"-boundary", "")
+					}
 				}
 			}
 			if i == 0 && o.Kind == 'L' && !o.Hi && o.Nonce == 0 {
@@ -432,7 +538,9 @@ func TestC19Seq(t *testing.T) {
 		L--
 	}
 	m.Rule(fmt.Sprintf("every sequence of length %d (hence every shorter one, as a prefix) over {AddLocal, AddRemotesSync} x 2 accounts x 3 nonces x 2 prices, "+
-		"head event mining an account's lowest pending tx, SetGasPrice high/low, up to renaming of the two (identical) accounts; fresh pool per sequence, "+
+		"head event mining an account's lowest pending tx, SetGasPrice high/low, up to renaming of the two (identical) accounts; "+
+		"plus at most one boundary head per sequence (position 3 or later): account balance set to c1-1 / c1 / c2-1 (c1 > c2 the two highest distinct costs the account submitted so far, replacements included; "+
+		"the high-priced variant of a slot also has the higher gas) or block gas limit set to g1-1 / g1 (highest gas submitted); fresh pool per sequence, "+
 		"VerifQuiesce after every op; distinct = distinct op prefixes on which all invariants and the permitted-membership reference were evaluated", L))
 	m.Assume("quiescent point = every announced head event handled by the pool's loop (sentinel events) and the pool's own same-head reset served (VerifQuiesce)",
 		"'affordable from its balance' is read per transaction (cost <= balance), the pool's own notion; cumulative overdraft is only counted",
@@ -554,5 +662,8 @@ loop:
 	m.Extra("pool_error_log_messages", errc)
 	m.Floor(atomic.LoadInt64(&total), 8)
 	m.Need("ref:fresh-slot", "ref:replace-bump-sufficient", "ref:replace-bump-insufficient", "ref:mine-lowest-pending", "ref:price-change",
-		"outcome:replacement-accepted", "outcome:replacement-rejected", "outcome:promoted", "outcome:queued")
+		"outcome:replacement-accepted", "outcome:replacement-rejected", "outcome:promoted", "outcome:queued",
+		"ref:balance-boundary-head:c1-1", "ref:balance-boundary-head:c1", "ref:balance-boundary-head:c2-1",
+		"ref:gas-limit-boundary-head:g1-1", "ref:gas-limit-boundary-head:g1",
+		"outcome:dropped-by-balance-head", "outcome:kept-at-balance-boundary", "outcome:dropped-by-gas-limit-head", "outcome:kept-at-gas-limit-boundary")
 }
